@@ -5,6 +5,7 @@ import RsModel.Lemmas.ModeCold
 import RsModel.Lemmas.LeavesAttr
 import RsModel.Lemmas.ColdStrip
 import RsModel.Lemmas.WarmTree
+import RsModel.Lemmas.HistoryAnswers
 /-!
 # C13 — composition laws: nesting, neutral elements and wrappers change nothing
 -/
@@ -202,5 +203,20 @@ theorem c13_same_leaves_names_cold (a b : Src) (σa σb : Store) (hna : a.ids.No
     NA (a.stream ⟨true, false⟩ σa).1.evs = NA (b.stream ⟨true, false⟩ σb).1.evs := by
   rw [Src.stream_strip a _ σa hna hca, Src.stream_strip b _ σb hnb hcb]
   exact NA_same_leaves _ _ (Src.strip_nc a) (Src.strip_nc b) ia ib h
+
+/-- **… and on warm caches, after arbitrary call histories**: `a` and `b` have the same sequence of leaves once their CachedSource
+wrappers are taken off (any grouping by ConcatSource nodes, CachedSource wrappers at any depth and in any number, none beneath a
+ReplaceSource), each on its own caches, cold at the start, and each is observed through its OWN history of streaming / `get_map`
+calls — any lengths, any option orders.  Any normal-mode stream (columns = true) of `a`'s history and any of `b`'s history resolve
+every byte to the same file name, original line, original column and name.  `c10_every_history_stream` ∘ `c13_same_leaves_names`
+on the cache-free forms. -/
+theorem c13_same_leaves_every_history (a b : Src) (σa σb : Store) (hna : a.ids.Nodup) (hnb : b.ids.Nodup)
+    (hca : Cold σa a.ids) (hcb : Cold σb b.ids) (hka : a.NoCR) (hkb : b.NoCR) (hwa : a.WarmHyp) (hwb : b.WarmHyp)
+    (ia : a.strip.IdxHyp) (ib : b.strip.IdxHyp) (h : a.strip.leaves = b.strip.leaves)
+    (callsA callsB : List Opts) (ka kb : Nat) (h1 : callsA[ka]? = some ⟨true, false⟩) (h2 : callsB[kb]? = some ⟨true, false⟩) :
+    ∃ ra rb, (runCalls a callsA σa).1[ka]? = some ra ∧ (runCalls b callsB σb).1[kb]? = some rb ∧ NA ra.evs = NA rb.evs := by
+  obtain ⟨ra, a1, a2⟩ := history_stream_NA a hka hna σa hca hwa callsA ka h1
+  obtain ⟨rb, b1, b2⟩ := history_stream_NA b hkb hnb σb hcb hwb callsB kb h2
+  exact ⟨ra, rb, a1, b1, by rw [a2, b2]; exact NA_same_leaves _ _ (Src.strip_nc a) (Src.strip_nc b) ia ib h⟩
 
 end Rs
